@@ -404,6 +404,7 @@ def check_c06(chk, rng):
             elif obs != base[0]:
                 chk.violation("order-differs", "two admissible statement orders of the same dataflow produce different streams",
                               replay_text(c, "differs from order of " + base[1].scn.replace("\n", " | ")))
+    check_forward_references(chk, rng)
     check_sharing(chk, rng)
     verdicts = validate(cases[:200], chk, "c06")
     chk.coverage["rule"] = ("each random program is wired in up to %d admissible statement orders; all must produce the streams "
@@ -411,6 +412,44 @@ def check_c06(chk, rng):
                             "with equal / different scalars and inputs and duplicated sinks") % (6 if chk.tier == "quick" else 24)
     for c in cases[:2]:
         chk.sample({"scenario": c.scn.splitlines()})
+
+
+def check_forward_references(chk, rng):
+    """consumer-first statement orders: the consumer is wired against a delayed binding (a scalar port, or a whole
+    two-element list) that is resolved after its producers were wired - same dataflow, same streams"""
+    progs, scns = [], []
+    for k in range(24 if chk.tier == "quick" else 300):
+        horizon = 6
+        s1 = P.gen_script(rng, horizon, maxlen=4)
+        k2, k3 = rng.randint(1, 3), rng.randint(1, 3)
+        kind3 = rng.choice(["add", "acc", "delay"])
+        listy = k % 2 == 0
+        nodes = [P.node("src", script=s1), P.node("add", ins=[1], k=k2), P.node(kind3, ins=[2], k=k3)]
+        nodes.append(P.node("lsum", ins=[2, 3]) if listy else P.node("add", ins=[3], k=1))
+        nodes.append(P.node("rec", ins=[4]))
+        p = P.program(9900 + k, nodes, start=1, end=horizon + 1)
+        progs.append(p)
+        par3 = (" k=%d" % k3) if kind3 == "add" else (" d=%d" % k3) if kind3 == "delay" else ""
+        prod = ["n 2 add k=%d in=1" % k2, "n 3 %s%s in=2" % (kind3, par3)]
+        if listy:
+            cons, bind = ["n 9 dlyl", "n 4 lsuml in=9", "n 5 rec in=4"], "bind 9 2,3"
+        else:
+            cons, bind = ["n 9 dly", "n 4 add k=1 in=9", "n 5 rec in=4"], "bind 9 3"
+        src = "n 1 src script=" + ";".join("%d:%d" % (t, v) for t, v in s1)
+        body = rng.choice([[src] + cons + prod, cons + [src] + prod, [src, prod[0]] + cons + [prod[1]]])
+        scns.append("\n".join(["scn fwd%d" % k, "opt start=1 end=%d" % (horizon + 1), "graph root"] + body + [bind, "endgraph", "run"]))
+    preds, res = dfcheck.predict(progs, tag="c06fwd")
+    chk.add_tlc(res, "forward-references")
+    traces = hg.run_driver("engine", scns)
+    for p, scn, tr in zip(progs, scns, traces):
+        chk.count({"scn": scn})
+        if isinstance(tr, dict) or any(e["e"] in ("wirefail", "harnessfail") for e in tr):
+            chk.violation("fwd:run", "consumer-first wiring crashed or could not be wired", scn)
+            continue
+        diff = dfcheck.compare(p, preds[p["id"]], tr)
+        if diff:
+            chk.violation("fwd:stream", "the consumer wired first through a delayed binding: " + diff, "# C06 consumer-first order\n" + scn + "\n")
+    chk.coverage["traces_validated_against_impl"] += len(scns)
 
 
 def check_sharing(chk, rng, only=None, prefix="share"):
